@@ -25,8 +25,8 @@ E     == Episodes[ep]
 TKind == E.kind
 
 TInit == /\ kind = (CHOOSE k \in Kinds : k.name = "Mean") /\ mode = "hist"
-         /\ rng = [seed |-> "s0", stream |-> <<>>] /\ steps = <<>> /\ ncalls = 0 /\ inputsIntact = TRUE
-         /\ ep = 1 /\ pos = 1 /\ trng = [seed |-> "s0", stream |-> <<>>]
+         /\ rng = [seed |-> "s0", stream |-> <<>>, calls |-> 0] /\ steps = <<>> /\ ncalls = 0 /\ inputsIntact = TRUE
+         /\ ep = 1 /\ pos = 1 /\ trng = [seed |-> "s0", stream |-> <<>>, calls |-> 0]
          /\ nAcc = 0 /\ nRej = 0 /\ nDrift = 0 /\ nMemo = 0 /\ stage = "run"
 
 Frozen == UNCHANGED <<kind, mode, rng, steps, ncalls, inputsIntact>>
@@ -48,7 +48,7 @@ TStep ==
     /\ stage = "run" /\ ep <= NEp /\ pos <= Len(E.steps)
     /\ LET st == E.steps[pos] IN
        IF st.op = "seed"
-       THEN /\ trng' = [seed |-> st.s, stream |-> <<>>]
+       THEN /\ trng' = [seed |-> st.s, stream |-> <<>>, calls |-> 0]
             /\ pos' = pos + 1
             /\ UNCHANGED <<ep, nAcc, nRej, nDrift, nMemo>>
        ELSE LET f == Failing(TKind, trng, st.c, st.obs)
@@ -63,7 +63,7 @@ TStep ==
                 THEN /\ PrintT(<<"REJECT", ToJson([ep |-> E.ep, at |-> pos, clause |-> f,
                                                    want |-> Contract(TKind, st.c)])>>)
                      /\ ep' = ep + 1 /\ pos' = 1 /\ nRej' = nRej + 1
-                     /\ trng' = [seed |-> "s0", stream |-> <<>>]
+                     /\ trng' = [seed |-> "s0", stream |-> <<>>, calls |-> 0]
                      /\ UNCHANGED <<nAcc, nDrift, nMemo>>
                 ELSE /\ (drift => PrintT(<<"DRIFT", ToJson([ep |-> E.ep, at |-> pos, impl |-> implSays,
                                                              seen |-> causeSeen])>>))
@@ -79,7 +79,7 @@ TStep ==
 TEndEpisode ==
     /\ stage = "run" /\ ep <= NEp /\ pos = Len(E.steps) + 1
     /\ ep' = ep + 1 /\ pos' = 1 /\ nAcc' = nAcc + 1
-    /\ trng' = [seed |-> "s0", stream |-> <<>>]
+    /\ trng' = [seed |-> "s0", stream |-> <<>>, calls |-> 0]
     /\ UNCHANGED <<nRej, nDrift, nMemo, stage>>
     /\ Frozen
 
